@@ -332,6 +332,13 @@ CLAIMED["C07"] = {
     "RescaleToBounds.__init__ (configure_pre/post_rescaling inlined): no "
     "prime prior is offered once a post-rescaling is configured, logit "
     "forces unit rescale bounds and is rejected with moving bounds; "
+    "determine_rescaled_bounds (no inversion, lower / upper inversion) and "
+    "RescaleToBounds.update_prime_prior_bounds, with the lemma that a value "
+    "lies in the prior interval iff its image under _rescale_to_bounds lies "
+    "between the returned prime-prior bounds (same support; the map is "
+    "affine, so the uniform prime prior is the prior over a constant "
+    "Jacobian); NullReparameterisation (identity on its parameters, other "
+    "fields and the log-Jacobian untouched); "
     "the prime prior: log_uniform_prior is the log-indicator of "
     "[xmin, xmax] and RescaleToBounds.x_prime_log_prior is the product of "
     "the per-parameter uniform priors (support = the box of prime bounds; "
@@ -341,8 +348,8 @@ CLAIMED["C07"] = {
     "constructor beyond the two option families under contract (no "
     "post-rescaling / logit; default rescale bounds, no inversion, no "
     "offset), pre-rescaling, "
-    "inversion (split / duplicate), update_bounds / update_prime_prior_bounds "
-    "(how the prime bounds are derived), Angle, "
+    "inversion (split / duplicate), update_bounds, the prime bounds under "
+    "inversion, Angle, "
     "ToCartesian, AnglePair, CombinedReparameterisation, "
     "FlowProposal.rescale, all GW reparameterisations, logit with eps "
     "(clipping is not a bijection), behaviour at the bounds and floating-"
